@@ -284,7 +284,9 @@ class QuotientFilter:
         if self._hash_func("test", 0) != second._hash_func("test", 0):
             raise QuotientFilterError("Hash functions do not match")
 
-        for _h in second.hashes():
+        # merging a filter into itself: adding may resize it while its own hashes are still being generated
+        hashes = second.get_hashes() if second is self else second.hashes()
+        for _h in hashes:
             self.add_alt(_h)
 
     def _shift_insert(self, q: int, r: int, orig_idx: int, insert_idx: int, flag: int):
